@@ -18,7 +18,7 @@ Machine = hgm.FcnMachine
 
 PROP = {
     "id": "C03",
-    "quick_n": 220,
+    "quick_n": 300,
     "thorough_n": 5000,
     "rule": "one program = tree spec with at least one quantity-bearing node (every primitive in "
             "every child / flow position), two instances a (vectorised) and b (row by row), 1-3 "
@@ -108,7 +108,7 @@ def oracle(p, run, exact):
         if o[0] == "fillnp":
             info = log[k]
             k += 1
-            if ob == [1]:
+            if ob[0] == 1:
                 fails.append({"clause": "fill.numpy accepts the batch", "rows": len(o[2]), "weight": o[3] if not isinstance(o[3], list) else "array",
                               "diff": "raised %s" % info["raised"]})
             if not info["inputs_unmodified"]:
